@@ -33,6 +33,25 @@ def family(mn):
     return mn
 
 
+GP_RE = re.compile(r'(?<![\w%\[+*:-])(' + '|'.join(asmgen.R32 + asmgen.R16 + asmgen.R8) + r')(?![\w\]+*:])')
+
+
+def sse_mechanism(cand, txt, src, is_line):
+    """Systematic mechanisms that hit every MMX/SSE row alike (one key each); None = key the row itself.
+    src = the assembly line (forward) or the reference's text of the bytes (backward)."""
+    if 'seg' in x86ref.prefix_class(cand):
+        return 'MMX-SSE+segment-prefix'
+    ops = (txt or '').split(None, 1)[1] if len((txt or '').split(None, 1)) > 1 else ''
+    if re.search(r'\bds:(0x)?[0-9a-f]+', src) and 'PTR' not in ops and '[' not in ops and re.search(r'(^|,)\s*\d+\s*(,|$)', ops):
+        return 'MMX-SSE+absolute-memory-operand-rendered-as-number'
+    if is_line:
+        lops = src.split(None, 1)[1] if ' ' in src else ''
+        outside = re.sub(r'\[[^\]]*\]', '[]', lops)
+        if GP_RE.search(outside):
+            return 'MMX-SSE+general-register-written-for-a-simd-operand'
+    return None
+
+
 def asm_safe(text):
     from miasmx.arch.ia32_arch import x86mnemo
     try:
@@ -51,7 +70,7 @@ def forward(sh, batch):
             continue
         fam = family(mn)
         if fam == 'MMX-SSE':
-            shape = '*'
+            fam, shape = 'MMX-SSE:' + mn, '*'      # one key per mnemonic (a family-wide key would hide a newly broken row)
         fam0, shape0 = fam, shape
         for b in c:
             wit = {'dir': 'fwd', 'line': line, 'cand': b.hex()}
@@ -59,9 +78,9 @@ def forward(sh, batch):
                 continue
             fam, shape = fam0, shape0
             pcb = x86ref.prefix_class(b)
-            if fam != 'MMX-SSE' and 'seg' in pcb:
+            if not fam.startswith('MMX-SSE') and 'seg' in pcb:
                 fam = 'seg-override'
-            elif fam != 'MMX-SSE' and pcb == '66' and v is not None and -128 <= v < 0 and len(b) >= 3 and b[1] in (0x83, 0x6b):
+            elif not fam.startswith('MMX-SSE') and pcb == '66' and v is not None and -128 <= v < 0 and len(b) >= 3 and b[1] in (0x83, 0x6b):
                 fam = 'imm8-sign-extended-16bit'
             sh.case(('fwd', line, b), True, cls='fwd/%s/%s' % (fam, shape))
             try:
@@ -81,6 +100,8 @@ def forward(sh, batch):
                 sh.violation('fwd/%s/%s/render-raises:%s' % (fam, shape, type(e).__name__), '%r -> candidate %s: rendering raised %r' % (line, b.hex(), e), wit)
                 continue
             c2, err2 = asm_safe(txt)
+            if fam.startswith('MMX-SSE') and (c2 is None or b not in c2):
+                fam = sse_mechanism(b, txt, line, True) or fam
             if c2 is None:
                 sh.violation('fwd/%s/%s/asm-raises:%s' % (fam, shape, err2), '%r -> %s -> %r which asm rejects (%s)' % (line, b.hex(), txt, err2), wit)
             elif b not in c2:
@@ -127,6 +148,8 @@ def backward(sh, items):
             fam, sig = ('addr16' if fam != 'MMX-SSE' else 'MMX-SSE'), '*'
         if fam == 'MMX-SSE':
             sig = '*'
+            if '67' not in pc0:
+                fam = 'MMX-SSE:' + d.m.name      # one key per table row (a family-wide key would hide a newly broken row)
         elif 'seg' in pc0:
             fam = 'seg-override'          # systematic: segment overrides are only assembled next to a register operand
         elif pc0 == '66' and sig.endswith(',i') and re.search(r',0xff[89a-f][0-9a-f]$', rt):
@@ -139,6 +162,8 @@ def backward(sh, items):
             continue
         c2, err2 = asm_safe(txt)
         pc = x86ref.prefix_class(b)
+        if fam.startswith('MMX-SSE:') and (c2 is None or b not in c2):
+            fam = sse_mechanism(b, txt, rt, False) or fam
         if c2 is None:
             sh.violation('back/%s/%s/p=%s/asm-raises:%s' % (fam, sig, pc, err2), 'bytes %s (%s) render as %r which asm rejects (%s)' % (b.hex(), rt, txt, err2), wit)
         elif b not in c2:
